@@ -17,7 +17,6 @@ import (
 	"github.com/bnb-chain/tss-lib/v2/crypto/facproof"
 	"github.com/bnb-chain/tss-lib/v2/crypto/modproof"
 	"github.com/bnb-chain/tss-lib/v2/crypto/mta"
-	"github.com/bnb-chain/tss-lib/v2/crypto/paillier"
 	"github.com/bnb-chain/tss-lib/v2/crypto/schnorr"
 	"github.com/bnb-chain/tss-lib/v2/crypto/vss"
 	ecdsareshare "github.com/bnb-chain/tss-lib/v2/ecdsa/resharing"
@@ -139,7 +138,7 @@ func init() {
 	})
 	// ---- Paillier ----
 	vc.Register("pai_encrypt", func(a []val.V) val.V {
-		pk := &paillier.PublicKey{N: val.AsInt(a[0])}
+		pk := paiPKObj(val.AsInt(a[0]))
 		return withStream(func() val.V {
 			c, _, err := pk.EncryptAndReturnRandomness(streamFor(d(val.AsInt(a[2]), pk.N)), val.AsInt(a[1]))
 			if err != nil {
@@ -149,7 +148,7 @@ func init() {
 		})
 	})
 	vc.Register("pai_homo_mult", func(a []val.V) val.V {
-		pk := &paillier.PublicKey{N: val.AsInt(a[0])}
+		pk := paiPKObj(val.AsInt(a[0]))
 		c, err := pk.HomoMult(val.AsInt(a[1]), val.AsInt(a[2]))
 		if err != nil {
 			return val.Err
@@ -157,7 +156,7 @@ func init() {
 		return val.Ok(val.I(c))
 	})
 	vc.Register("pai_homo_add", func(a []val.V) val.V {
-		pk := &paillier.PublicKey{N: val.AsInt(a[0])}
+		pk := paiPKObj(val.AsInt(a[0]))
 		c, err := pk.HomoAdd(val.AsInt(a[1]), val.AsInt(a[2]))
 		if err != nil {
 			return val.Err
@@ -167,7 +166,7 @@ func init() {
 	// pai_decrypt [N lambda phi P Q] c
 	vc.Register("pai_decrypt", func(a []val.V) val.V {
 		k := val.AsInts(a[0])
-		sk := &paillier.PrivateKey{PublicKey: paillier.PublicKey{N: k[0]}, LambdaN: k[1], PhiN: k[2], P: k[3], Q: k[4]}
+		sk := paiSKObj(k)
 		m, err := sk.Decrypt(val.AsInt(a[1]))
 		if err != nil {
 			return val.Err
@@ -177,7 +176,7 @@ func init() {
 	// pai_prove [N lambda phi P Q] k [pub] -> [Ok [13 ints]]
 	vc.Register("pai_prove", func(a []val.V) val.V {
 		k := val.AsInts(a[0])
-		sk := &paillier.PrivateKey{PublicKey: paillier.PublicKey{N: k[0]}, LambdaN: k[1], PhiN: k[2], P: k[3], Q: k[4]}
+		sk := paiSKObj(k)
 		pub := pointOf(tss.S256(), a[2])
 		if pub == nil {
 			return val.Err
@@ -193,7 +192,7 @@ func init() {
 		N, NT := val.AsInt(a[1]), val.AsInt(a[3])
 		r := val.AsInts(a[8])
 		return withStream(func() val.V {
-			pf, err := mta.ProveRangeAlice(ec, &paillier.PublicKey{N: N}, val.AsInt(a[2]), NT, val.AsInt(a[4]), val.AsInt(a[5]), val.AsInt(a[6]), val.AsInt(a[7]),
+			pf, err := mta.ProveRangeAlice(ec, paiPKObj(N), val.AsInt(a[2]), NT, val.AsInt(a[4]), val.AsInt(a[5]), val.AsInt(a[6]), val.AsInt(a[7]),
 				streamFor(d(r[0], q3of(q)), d(r[1], N), d(r[2], mul(q3of(q), NT)), d(r[3], mul(q, NT))))
 			if err != nil {
 				return val.Err
@@ -217,7 +216,7 @@ func init() {
 		q3 := q3of(q)
 		q7 := mul(mul(q3, q3), q)
 		return withStream(func() val.V {
-			pf, err := mta.ProveBobWC(sessBuf(a[1]), ec, &paillier.PublicKey{N: N}, NT, val.AsInt(a[4]), val.AsInt(a[5]), val.AsInt(a[6]), val.AsInt(a[7]),
+			pf, err := mta.ProveBobWC(sessBuf(a[1]), ec, paiPKObj(N), NT, val.AsInt(a[4]), val.AsInt(a[5]), val.AsInt(a[6]), val.AsInt(a[7]),
 				val.AsInt(a[8]), val.AsInt(a[9]), val.AsInt(a[10]), X,
 				streamFor(d(r[0], q3), d(r[1], mul(q, NT)), d(r[2], mul(q, NT)), d(r[3], mul(q3, NT)), d(r[4], mul(q3, NT)), d(r[5], N), d(r[6], q7)))
 			if err != nil {
@@ -428,7 +427,7 @@ func init() {
 		q := ec.Params().N
 		session := sessBuf(a[1])
 		k := val.AsInts(a[2])
-		sk := &paillier.PrivateKey{PublicKey: paillier.PublicKey{N: k[0]}, LambdaN: k[1], PhiN: k[2], P: k[3], Q: k[4]}
+		sk := paiSKObj(k)
 		pk := &sk.PublicKey
 		pa, pb := val.AsInts(a[3]), val.AsInts(a[4])
 		av, bv := val.AsInt(a[5]), val.AsInt(a[6])
